@@ -40,7 +40,13 @@ def process_patterned_date_time(func: Callable) -> Callable:
         def class_method_wrapper(cls, tp: TypeInfo, extras: Extras):
             # Process pattern if it exists in extras
             if (pb := extras.get('pattern')) is not None:
-                pb.base = cast(type[DT], tp.origin)
+                # one pattern can reach several date/time positions of
+                # different types (`Annotated[tuple[date, datetime], P]`, or
+                # `P` shared by several fields): give each position its own
+                # copy instead of re-targeting (and re-using the helper
+                # cached for) the shared object
+                pb = pb.__class__(cast(type[DT], tp.origin), pb.patterns,
+                                  getattr(pb, 'tz_info', None))
                 tp.origin = cast(type, pb)
                 # name the generated helper after the pattern (as for
                 # `TimePattern[...]`), not only after the date/time type:
@@ -58,7 +64,13 @@ def process_patterned_date_time(func: Callable) -> Callable:
         def static_method_wrapper(tp: TypeInfo, extras: Extras):
             # Process pattern if it exists in extras
             if (pb := extras.get('pattern')) is not None:
-                pb.base = cast(type[DT], tp.origin)
+                # one pattern can reach several date/time positions of
+                # different types (`Annotated[tuple[date, datetime], P]`, or
+                # `P` shared by several fields): give each position its own
+                # copy instead of re-targeting (and re-using the helper
+                # cached for) the shared object
+                pb = pb.__class__(cast(type[DT], tp.origin), pb.patterns,
+                                  getattr(pb, 'tz_info', None))
                 tp.origin = cast(type, pb)
                 # name the generated helper after the pattern (as for
                 # `TimePattern[...]`), not only after the date/time type:
